@@ -30,6 +30,18 @@ WellFormed(s) ==
   /\ \A f \in LiveF(s) : \A he \in Rng(At(s.faces, f)) : he \in LiveHE(s)
   /\ \A c \in LiveC(s) : \A hf \in Rng(At(s.cells, c)) : hf \in LiveHF(s)
 
+(* an observed state the operational model can be applied to: well formed,  *)
+(* caches of the right shape with entries in range, and the (stale)        *)
+(* definitions of deleted entities still within the handle ranges          *)
+Sane(s) ==
+  /\ WellFormed(s)
+  /\ \A e \in Hs(s.edges) : Len(At(s.edges, e)) = 2 /\ At(s.edges, e)[1] \in 0 .. (s.nv - 1) /\ At(s.edges, e)[2] \in 0 .. (s.nv - 1)
+  /\ \A f \in Hs(s.faces) : \A he \in Rng(At(s.faces, f)) : he \in 0 .. (NHE(s) - 1)
+  /\ \A c \in Hs(s.cells) : \A hf \in Rng(At(s.cells, c)) : hf \in 0 .. (NHF(s) - 1)
+  /\ s.vbu => Len(s.out) = s.nv /\ \A v \in 0 .. (s.nv - 1) : Rng(At(s.out, v)) \subseteq 0 .. (NHE(s) - 1)
+  /\ s.ebu => Len(s.hehf) = NHE(s) /\ \A h \in 0 .. (NHE(s) - 1) : Rng(At(s.hehf, h)) \subseteq 0 .. (NHF(s) - 1)
+  /\ s.fbu => Len(s.inc) = NHF(s) /\ Rng(s.inc) \subseteq -1 .. (Len(s.cells) - 1)
+
 (* C02: counters describe the flags *)
 CountersConsistent(s) ==
   /\ s.ndv = NTrue(s.vdel) /\ s.nde = NTrue(s.edel)
@@ -295,28 +307,30 @@ Unchanged(pre, post) ==
 LiveEdgesBetween(s, a, b) ==
   {e \in LiveE(s) : At(s.edges, e) = <<a, b>> \/ At(s.edges, e) = <<b, a>>}
 
+(* traces recorded through the hooks do not carry the result (ret = Void)  *)
+RetIs(ret, v) == ret = Void \/ ret = v
 AddRel(pre, c, post, ret) ==
-  CASE c.op = "add_vertex" -> ret = pre.nv /\ AppendRel(pre, post, "V", <<>>)
+  CASE c.op = "add_vertex" -> RetIs(ret, pre.nv) /\ AppendRel(pre, post, "V", <<>>)
     [] c.op = "add_edge" ->
          LET ex == LiveEdgesBetween(pre, c.a, c.b) IN
          IF ~c.f /\ ex # {}
-         THEN ret \in ex /\ Unchanged(pre, post)
-         ELSE ret = Len(pre.edges) /\ AppendRel(pre, post, "E", <<c.a, c.b>>)
+         THEN (ret = Void \/ ret \in ex) /\ Unchanged(pre, post)
+         ELSE RetIs(ret, Len(pre.edges)) /\ AppendRel(pre, post, "E", <<c.a, c.b>>)
     [] c.op = "add_face" ->
          IF c.f /\ ~ClosedLoop(pre, c.l)
-         THEN ret = -1 /\ Unchanged(pre, post)
-         ELSE ret = Len(pre.faces) /\ AppendRel(pre, post, "F", c.l)
+         THEN RetIs(ret, -1) /\ Unchanged(pre, post)
+         ELSE RetIs(ret, Len(pre.faces)) /\ AppendRel(pre, post, "F", c.l)
     [] c.op = "add_cell" ->
          IF c.f /\ ~ClosedSurface(pre, c.l)
-         THEN ret = -1 /\ Unchanged(pre, post)
-         ELSE ret = Len(pre.cells) /\ AppendRel(pre, post, "C", c.l)
+         THEN RetIs(ret, -1) /\ Unchanged(pre, post)
+         ELSE RetIs(ret, Len(pre.cells)) /\ AppendRel(pre, post, "C", c.l)
     [] c.op = "add_face_v" ->
          (* C08/C11: a face built from a vertex list is a closed loop through exactly those   *)
          (* vertices; existing live edges are reused, missing ones created exactly once       *)
          LET n == Len(c.l)
              pairs == {<<c.l[i], c.l[(i % n) + 1]>> : i \in 1 .. n}
              missing == {{p[1], p[2]} : p \in {q \in pairs : LiveEdgesBetween(pre, q[1], q[2]) = {}}}
-         IN /\ ret = Len(pre.faces)
+         IN /\ RetIs(ret, Len(pre.faces))
             /\ Len(post.faces) = Len(pre.faces) + 1 /\ post.fdel = Append(pre.fdel, FALSE)
             /\ Len(post.edges) = Len(pre.edges) + Cardinality(missing)
             /\ post.edel = pre.edel \o Rep(Cardinality(missing), FALSE)
